@@ -24,7 +24,7 @@ ASSUMPTIONS = [
     "payloads above 1 MiB are not exercised (Buffer cost grows quadratically with the message length)",
 ]
 SHARD_LIMIT = {"quick": 900, "thorough": 14400}
-FORMATS = [".fits", ".bin", "", ".x.gz", "a b", "<&>"]
+FORMATS = [".fits", ".bin", "", ".x.gz", "a b", "<&>", ".fits.z", ".z"]  # *.z: INDI's convention for compressed payloads
 
 
 def payload(n, seed):
@@ -180,6 +180,53 @@ def d2_policy_sequence(n, seed, seq, fails):
             fails.append(("blob-policy", dd, "n=%d: after enableBLOB %s the connection received %d setBLOBVector" % (n, " then ".join(seq), len(blobs))))
         if bool(texts) != (last in ("Never", "Also")):
             fails.append(("text-policy", dd, "n=%d: after enableBLOB %s the connection received %d setTextVector" % (n, " then ".join(seq), len(texts))))
+    finally:
+        w.close()
+
+
+def d2_large_paused(n, seed, fails):
+    """a BLOB larger than any slice size goes to a raw connection whose flow control is paused right after the first
+    write, while an ordinary update is published behind it; after resuming both must arrive intact and in order"""
+    from mc.core import e2e
+
+    w = e2e.World([spec()], guard_buffers=True)
+    try:
+        link = w.new_link("raw")
+        w.settle()
+        ep = link.server_ep
+        ep.feed(b'<getProperties version="1.7"/><enableBLOB device="DEV0">Also</enableBLOB>')
+        w.settle()
+        mark = len(ep.written())
+        b = blob_of(n, seed)
+        dev = w.devices[0]
+        ep.pause()
+        dev.g.bl.a.value = b
+        w.loop.quiesce()
+        dev.g.t.a.value = "after-blob"
+        w.loop.quiesce()
+        for _ in range(6):  # resume / pause a few times: every slice boundary is a point where another sender could cut in
+            ep.resume()
+            w.loop.step()
+            ep.pause()
+            w.loop.quiesce()
+        ep.resume()
+        w.settle()
+        tail = ep.written()[mark:].decode("latin1")
+        els, rest = X.split_elements(tail)
+        dd = "large-paused"
+        names = [e[1:e.index(" ")] for e in els]
+        if names != ["setBLOBVector", "setTextVector"] or rest.strip():
+            fails.append(("garbled", dd, "n=%d: connection received elements %r (stray %r)" % (n, names, rest[:30])))
+            return
+        v = X.view_of_xml(els[0])
+        ch = {dict(c[1])["name"]: c for c in v[3]}
+        try:
+            raw = base64.b64decode(ch["A"][2] or "", validate=True)
+        except Exception as e:
+            fails.append(("payload-not-base64", dd, "n=%d: %r" % (n, e)))
+            return
+        if raw != b.binary:
+            fails.append(("payload-differs", dd, "n=%d: %d bytes received" % (n, len(raw))))
     finally:
         w.close()
 
@@ -386,6 +433,11 @@ def _run(shard, tier, seed, what, res, absorb):
                 d2_policy_sequence(1500, seed, list(seq), f)
                 absorb(f, dict(kind="polseq", n=1500, seed=seed, seq=list(seq)))
                 res["executions"] += 1
+            for n in (70000, 140001):
+                f = []
+                d2_large_paused(n, seed, f)
+                absorb(f, dict(kind="largepaused", n=n, seed=seed))
+                res["executions"] += 1
             for n in (0, 1, 300, 1024, 2000):
                 f = []
                 d1_reuse(n, seed, f)
@@ -455,6 +507,8 @@ def replay(rep):
         d3_client_to_driver(rep["n"], rep["seed"], rep["mode"], f, "delivery=%s" % rep["mode"])
     elif k == "polseq":
         d2_policy_sequence(rep["n"], rep["seed"], rep["seq"], f)
+    elif k == "largepaused":
+        d2_large_paused(rep["n"], rep["seed"], f)
     elif k == "reuse":
         d1_reuse(rep["n"], rep["seed"], f)
     elif k == "partial":
